@@ -150,12 +150,21 @@ impl<'a> PrettyPrinter<'a> {
         ctx: Context,
         math_attach: MathAttach<'a>,
     ) -> ArenaDoc<'a> {
+        let mut after_code = false;
         self.convert_flow_like(ctx, math_attach.to_untyped(), |ctx, node| {
             if let Some(expr) = node.cast::<Expr>() {
+                // Embedded code (`#x`) is converted in code mode.
+                after_code = ctx.mode.is_code();
                 FlowItem::tight(self.convert_expr(ctx, expr))
             } else if node.kind() == SyntaxKind::Space {
-                FlowItem::none()
+                // A blank behind embedded code ends it: `#x _a` is not `#x_a`.
+                if std::mem::take(&mut after_code) {
+                    FlowItem::tight(self.arena.space())
+                } else {
+                    FlowItem::none()
+                }
             } else {
+                after_code = false;
                 FlowItem::tight(self.convert_trivia_untyped(node))
             }
         })
@@ -177,6 +186,9 @@ impl<'a> PrettyPrinter<'a> {
         self.convert_flow_like(ctx, math_frac.to_untyped(), |ctx, node| {
             if let Some(expr) = node.cast::<Expr>() {
                 FlowItem::spaced(self.convert_expr(ctx, expr))
+            } else if node.kind() == SyntaxKind::Semicolon {
+                // It ends embedded code (`1/#x;`). Behind a blank it would separate rows of arguments instead.
+                FlowItem::tight_spaced(self.convert_trivia_untyped(node))
             } else if node.kind() != SyntaxKind::Space {
                 FlowItem::spaced(self.convert_trivia_untyped(node))
             } else {
